@@ -18,7 +18,12 @@ def _run(cmd, what):
 def build(config="K0", units=("ctime_tests.c", "secp256k1.c", "precomputed_ecmult.c", "precomputed_ecmult_gen.c"), opt="O0"):
     """Returns the path of the prepared .ll (cached per tree digest within one run of the checks)."""
     os.makedirs(WORK, exist_ok=True)
-    tag = "%s.%s.%s.%s" % (config, opt, "+".join(u.split(".")[0] for u in units), sxlib.tree_digest())
+    def src_of(u):
+        # "@name.c" is a harness of /verif/fixtures (hashed into the tag so that editing it rebuilds), anything else a unit of /repo/src
+        return os.path.join(VERIF, "fixtures", u[1:]) if u.startswith("@") else os.path.join(REPO, "src", u)
+    import hashlib
+    fx = hashlib.sha256(b"".join(open(src_of(u), "rb").read() for u in units if u.startswith("@"))).hexdigest()[:8]
+    tag = "%s.%s.%s.%s%s" % (config, opt, "+".join(u.lstrip("@").split(".")[0] for u in units), sxlib.tree_digest(), fx if any(u.startswith("@") for u in units) else "")
     out = os.path.join(WORK, "ir.%s.ll" % tag)
     if os.path.exists(out) and os.path.getsize(out) > 0:
         return out
@@ -28,20 +33,20 @@ def build(config="K0", units=("ctime_tests.c", "secp256k1.c", "precomputed_ecmul
                 os.remove(os.path.join(WORK, f))
             except OSError:
                 pass
-    tmpd = os.path.join(WORK, "irtmp.%d.%s.%s" % (os.getpid(), config, opt))     # one per (process, configuration): configurations build in parallel threads
+    tmpd = os.path.join(WORK, "irtmp.%d.%s.%s.%s" % (os.getpid(), config, opt, units[0].lstrip("@").split(".")[0]))   # one per (process, configuration, root unit): they build in parallel threads
     os.makedirs(tmpd, exist_ok=True)
     try:
         lls = []
         procs = []
         flags = [f for f in sxlib.cflags(config) if f != "-Wno-everything"] + ["-Wno-everything"]
         for u in units:
-            ll = os.path.join(tmpd, u.replace(".c", ".ll"))
+            ll = os.path.join(tmpd, u.lstrip("@").replace(".c", ".ll"))
             lls.append(ll)
             if opt == "O0":
                 cmd = ["clang-14"] + flags + ["-O0", "-Xclang", "-disable-O0-optnone", "-g", "-S", "-emit-llvm",
-                                              os.path.join(REPO, "src", u), "-o", ll]
+                                              src_of(u), "-o", ll]
             else:
-                cmd = ["clang-14"] + flags + ["-O2", "-g", "-S", "-emit-llvm", os.path.join(REPO, "src", u), "-o", ll]
+                cmd = ["clang-14"] + flags + ["-O2", "-g", "-S", "-emit-llvm", src_of(u), "-o", ll]
             procs.append((cmd, subprocess.Popen(cmd, stdout=subprocess.PIPE, stderr=subprocess.PIPE, text=True)))
         for cmd, p in procs:
             o, e = p.communicate()
